@@ -23,7 +23,7 @@ def outcome(run, i):
 def run(ctx):
     rnd = ctx.rnd
     ctx.rule = ("exhaustive: all sequences of 1..4 operations from {read clean file, read file with duplicate key, read and abandon after 1 row, "
-                "read without close, read with end-check failing, validate(limit 0), write rows, write without close} on two CIDs (IsUnique+DistinctCount; "
+                "read without close, read with end-check failing, validate(limit 0), read nothing, read through a Reader object created before the history started, rows() called again on a Reader abandoned after one row, write rows, write nothing, write without close} on two CIDs (IsUnique+DistinctCount; "
                 "plugin check) over data sets sharing key values; each run re-executed alone on a fresh CID; thorough adds random histories of length 5..10; "
                 "distinct = distinct history; non-trivial = history has at least 2 operations")
     fields = [
@@ -46,6 +46,10 @@ def run(ctx):
         "read-endfail": {"kind": "R", "api": "c", "mode": "raise", "limit": None, "rows": three, "close": True},
         "validate-0": {"kind": "R", "api": "v", "mode": "raise", "limit": 0, "stop": 0, "rows": clean},
         "read-empty": {"kind": "R", "api": "c", "mode": "yield", "limit": None, "rows": [], "close": True},
+        # a Reader object that exists before the history starts; its run begins when rows() is called
+        "read-early": {"kind": "R", "api": "c", "mode": "yield", "limit": None, "rows": clean, "close": True, "early": True},
+        # rows() called a second time on a Reader whose first pass was abandoned after one row
+        "read-again": {"kind": "R", "api": "c", "mode": "yield", "limit": None, "rows": clean2, "close": True, "pre": 1},
         "write-empty": {"kind": "W", "rows": [], "close": True},
         "write": {"kind": "W", "rows": [["1", "a"], ["2", "b"], ["1", "a"]], "close": True},
         "write-noclose": {"kind": "W", "rows": [["2", "a"], ["3", "c"]], "close": False},
@@ -98,7 +102,11 @@ def run(ctx):
             if diffs:
                 # the model (which provably ignores earlier state) disagrees with the code
                 pinned = [d for d in diffs if d != "log"]
-                if pinned:
+                if pinned and outcome(run, i) == outcome(run, i0):
+                    # the statement holds on this run (same outcome as on a fresh CID): the model is behind the
+                    # code here (e.g. a repaired known finding); not a violation of C08
+                    ctx.note_drift({"diffs": diffs, "case": case})
+                elif pinned:
                     ctx.violation("C08:model:%s:%s" % (name, "+".join(pinned)), "history %r run %d: implementation %r, model %r" % (h, k, engine.public_impl(i), m), case)
                 else:
                     ctx.note_drift({"diffs": diffs, "case": case})
